@@ -12,6 +12,33 @@ func init() { props["C08"] = checkC08 }
 func checkC08(r *Run) {
 	r.Explain = "C08: (R1) the integrity walk terminates on every path: each goroutine counted by a WaitGroup calls Done on all its exits and the channel the verification workers range over is closed on all exits of its producer; (R2) every database mutation is inside one dbutil.DB.Update closure per logical operation: closures passed to Update/View never start a nested Update/View or a goroutine (directly or through module callees), every bucket-writing accessor takes the *dbutil.Tx it writes with, and block execution, pool removal and history update use the same tx; (R3) no error of a db accessor is dropped in the visor packages (a swallowed error would let bolt commit a partial state); (R4) the corrupt-database classifier resets the db only for the documented corruption errors and returns the db unchanged only for a nil error."
 	r.NotDec = "crash states inside a bolt commit (bolt's write-prefix atomicity is trusted); time bounds other than termination of the walk"
+	// an empty chain (buckets created, genesis not yet committed) verifies trivially: the walk returns nil when
+	// the chain length is 0 and fails before iterating only if reading the length fails
+	for _, f := range r.P.ModFns {
+		if !strings.HasPrefix(FnName(f), "visor.Blockchain.WalkChain$") || len(r.CallSites(f, "iface:visor.chainStore.ForEachBlock")) == 0 {
+			continue
+		}
+		ff := r.P.Facts(f)
+		fe := r.CallSites(f, "iface:visor.chainStore.ForEachBlock")[0]
+		emptyOK, early := false, 0
+		for _, e := range ff.Exits() {
+			if e.Ret == nil || fe.Block().Dominates(e.Ret.Block()) {
+				continue
+			}
+			switch e.Kind {
+			case ExitSuccess:
+				for _, a := range ff.Must(e.Block) {
+					if glob("visor.Blockchain.Len(*)#0 == 0", a.S) {
+						emptyOK = true
+					}
+				}
+			case ExitReject, ExitTail, ExitUnknown:
+				early++
+				r.Check("C08-R4", FnName(f)+": before iterating, the walk fails only when the chain length cannot be read", r.P.Pos(e.Ret.Pos()), glob("visor.Blockchain.Len(*)#1", e.Desc), "fails with "+trunc(e.Desc, 100)+": a database holding no block yet (crash before genesis) would be refused on restart")
+			}
+		}
+		r.Check("C08-R4", FnName(f)+": an empty chain is walked successfully (returns nil when the length is 0)", r.P.Pos(f.Pos()), emptyOK, "")
+	}
 	// R1
 	if fn := r.fn("C08-R1", "visor.Blockchain.WalkChain"); fn != nil {
 		res := r.P.goroutinePairing(fn)
